@@ -1,6 +1,7 @@
 """Shared machinery for C45 (spec/OntId.tla): TLC runs and replay on the real ontid contract."""
 import os
 import vf
+import _tlccache
 
 IDS, KEYS = ["A", "B", "C"], ["k1", "k2", "k3"]
 GAB2 = {"kind": "group", "id": "", "key": "", "members": ["A", "B"], "t": 2}
@@ -19,6 +20,9 @@ SETUPS = {
                   dict(name="AddAttrIdx", id="C", attr="a1", idx=1, signers=["k3"])],
     "I4": BASE + [dict(name="RegPk", id="C", key="k3", signers=["k3"]),
                   dict(name="AddRecoveryOld", id="C", key="k2", op={"form": "pk", "key": "k3"}, signers=["k3"])],
+    "I6": BASE + [dict(name="RegPk", id="C", key="k3", signers=["k3"]),
+                  dict(name="AddNewAuthKey", id="C", key="k1", idx=1, signers=["k3"]),
+                  dict(name="RemoveKeyIdx", id="C", key="k3", idx=2, signers=["k1"])],
     "I5": BASE + [dict(name="RegCtrl", id="C", ctrl={"kind": "id", "id": "A", "key": "", "members": [], "t": 0},
                        proof={"kind": "idx", "cid": "A", "idx": 1, "sg": []}, signers=["k1"])],
 }
@@ -37,6 +41,8 @@ def which_init(st):
         return "I1"
     if c["ctrl"]["kind"] == "group":
         return "I2"
+    if c["keys"] and c["keys"][0]["revoked"]:
+        return "I6"
     if c["rec"]["kind"] == "group":
         return "I3"
     if c["rec"]["kind"] == "old":
@@ -115,7 +121,7 @@ def run_paths(ctx, binary, paths, tag, timeout=1800):
 
 
 def tlc_design(ctx, cfg):
-    r = ctx.tlc("OntId_MC", cfg=cfg, timeout=1700)
+    r = _tlccache.run(ctx, "OntId_MC", "OntId", cfg, tags_needed=False)
     if r.status != "ok":
         ctx.infra("TLC did not verify the OntId specification (%s): %s %s %s" % (cfg, r.status, r.violated, r.errors[:2]))
         return None
@@ -125,7 +131,7 @@ def tlc_design(ctx, cfg):
 
 def tlc_export(ctx, name, inits, max_ops, simulate=None, depth=None):
     txt = cfg_text(inits, max_ops, True, props=not simulate)
-    r = ctx.tlc("OntId_MC", cfg=name, files={name: txt}, workers=1, timeout=1700, simulate=simulate, depth=depth)
+    r = _tlccache.run(ctx, "OntId_MC", "OntId", name, txt, simulate=simulate, depth=depth, workers=1)
     if r.status != "ok" and not (simulate and r.status == "error" and not r.errors):
         ctx.infra("TLC failed on %s: %s %s %s" % (name, r.status, r.violated, r.errors[:2]))
         return None
@@ -138,7 +144,10 @@ def check(ctx, paths, obs):
     n = 0
     prev = None
     ndrift = 0
+    dead = set()
     for o in obs:
+        if o["path"] in dead:
+            continue
         p = paths[o["path"]]
         if o["step"] == 0:
             act, to = {"name": "Init", "res": "init"}, p["init"]
@@ -185,7 +194,7 @@ def check(ctx, paths, obs):
             sfx = ":accepted-but-spec-refuses" if (rres == "ok" and act.get("res") == "err") else ""
             ctx.violation("State:%s:%s%s" % (name, fld, sfx), {"identity": x, "real": real[x], "model": model[x], "real_res": o["res"],
                                                                 "err": o.get("err"), "model_res": act.get("res")}, rp)
-            prev = None   # the rest of this path is no longer comparable
+            dead.add(o["path"])   # the rest of this path is no longer comparable
             continue
         if o["step"] > 0 and rres != act["res"]:
             if rres == "ok":
